@@ -41,13 +41,17 @@ fn parse_csv_row(row: &str) -> Vec<String> {
     let mut features = vec![];
     let mut rdr = csv_core::Reader::new();
     let mut bytes = row.as_bytes();
-    let mut output = [0; 4096];
+    // A field never unquotes to more bytes than it occupies in the row, so a buffer of the
+    // size of the row can hold any of its fields and the reader never reports `OutputFull`.
+    let mut output = vec![0; row.len()];
     loop {
         let (result, nin, nout) = rdr.read_field(bytes, &mut output);
         let end = match result {
             ReadFieldResult::InputEmpty => true,
             ReadFieldResult::Field { .. } => false,
-            _ => unreachable!(),
+            // An empty row, or a row ending in a comma or a line terminator.
+            ReadFieldResult::End => true,
+            ReadFieldResult::OutputFull => unreachable!(),
         };
         features.push(std::str::from_utf8(&output[..nout]).unwrap().to_string());
         if end {
